@@ -134,6 +134,7 @@ def oracle(ctx, name, line, ans):
     last = {}       # canonical location -> last byte stored there through a plain RAM address
     label = {}      # canonical location -> name of the listed defect family that may have disturbed it
     unknown = set() # locations whose contents the reference does not claim to know
+    romval = {}     # canonical location inside a read-only range -> the byte first read there
 
     def disturb(loc, why=None):
         last.pop(loc, None)
@@ -193,8 +194,18 @@ def oracle(ctx, name, line, ans):
                 disturb(l, "internal_memory_aliases_external_top" if name == "py" else (None if fam == "mixed" else fam))
             continue
         got = int(ob)
+        if bits != 20 and fam is None and all(kd == "rom" for kd in kinds):
+            # read-only window: whatever is read there first is what must be read there ever after, whatever was stored in between
+            for i, l in enumerate(locs):
+                b = (got >> (8 * i)) & 0xFF
+                if l in romval and romval[l] != b:
+                    ctx.report([name, "read_only_location_changed"], f"{name}: {op} reads {b:#x} at {l}, which read {romval[l]:#x} before; it lies in a read-only range",
+                               {"case": " ".join([cfg] + ops[:k + 1]), "got": b, "expected": romval[l]})
+                    return
+                romval.setdefault(l, b)
+            continue
         if bits == 20 or fam == "mixed" or any(kd != "ram" for kd in kinds):
-            continue                          # overlay / card / read-only windows: contents judged by the model correspondence
+            continue                          # overlay / card windows: contents judged by the model correspondence
         exp = 0
         known = True
         why = fam
